@@ -72,7 +72,7 @@ def run_forwarders(P, rep, rule="R-FWD.views"):
                 site = "%s for %s::%s" % (tname, short, m)
                 if wrong:
                     rep.viol(rule, site, P.where(fn), "%s forwards to %s instead of the same-named method" % (m, sorted(wrong)))
-                elif not called and m != "as_debug" and st not in ("liquid_core::model::value::values::Value", "core::option::Option<T>"):
+                elif not called and m != "as_debug" and st not in ("liquid_core::model::value::values::Value",):
                     rep.viol(rule, site, P.where(fn), "%s does not forward to the wrapped value at all" % m)
                 else:
                     rep.ok(rule, site, P.where(fn), "forwards to %s" % (sorted(called) or "variant-wise answer"))
